@@ -342,7 +342,8 @@ PROPS = {
                  "Also (R): Prover / Verifier / ProverKey / Evaluations / Commitment / Proof readers (every length checked before slicing, exact-length check before decoding, no allocation sized by input data before validation), from_bytes row replay and scalar table, unpack_bounded; Compiler::max_constraints free of overflow (second Verus pass).",
         "technique": "contract-based deductive verification: Verus on the real decoders annotated in place (overlay), callee wrappers for "
                      "dependency decoders; ring/trace checker for the per-point validity loop",
-        "level_note": "Assumed (callee wrappers, listed in the evidence): VerifierKey/OpeningKey/ProverKey::from_slice, CommitKey::from_raw_var_bytes, "
+        "level_note": "Exit lists are compared in ONE direction for this property (every rejection of the contract present and in order, no added panic; additional error returns allowed - a stricter decoder still satisfies C17; exact comparison of the same units under C16). "
+                      "Assumed (callee wrappers, listed in the evidence): VerifierKey/OpeningKey/ProverKey::from_slice, CommitKey::from_raw_var_bytes, "
                       "Verifier::new / Prover::new are total; u64::from_be_bytes; AsRef<[u8]>. NOT covered: validity of accepted points, allocation "
                       "bounds of the callee decoders, Proof::from_bytes, PublicParameters::from_slice, CompressedCircuit::from_bytes.",
         "design_ref": "DESIGN.md §4 C17",
